@@ -3,14 +3,16 @@ from vlib import core, text_oracles
 
 # PrintSpec: a line reaches the printer as parts no longer than a block; what is written is the parts' concatenation whatever the partition (C13_parts_bytes)
 # and whatever the part sizes relative to the 2056-byte buffer (C19_printed_eq_written)
-MODS = ['S4V.Props.C12', 'S4V.Props.LinesSpec', 'S4V.Props.CacheSpec', 'S4V.Props.GateSpec', 'S4V.Props.BoxptrsSpec', 'S4V.Props.PrintSpec', 'S4V.Props.PatSelSpec', 'S4V.Props.FixedWalkManySpec']
+MODS = ['S4V.Props.C12', 'S4V.Props.LinesSpec', 'S4V.Props.CacheSpec', 'S4V.Props.GateSpec', 'S4V.Props.BoxptrsSpec', 'S4V.Props.PrintSpec', 'S4V.Props.PatSelSpec', 'S4V.Props.FixedWalkManySpec', 'S4V.Props.LineSkelSpec']
 LEVEL_NOTE = ("Proved for every block size >= 1, every byte string and offset: block arithmetic (translated from blockreader.rs), "
               "find_line's block walk = the line containing the offset (bounds, bytes, in-bounds contiguous parts), lines tile the file; "
               "the message layer of the model does not see blocks. The hand model of find_line/find_line_in_block is tied to the code by "
               "in-process differential runs (exhaustive for all files over {NL,'a'} up to length 7-9 at every block size and offset, plus random "
               "call histories on warm caches). The acceptance gate depends on the block size: known findings F1/F2. Which datetime pattern the file is read with is modelled (PatSelSpec, constants regenerated "
               "from syslinereader.rs/syslogprocessor.rs): for a one-notation file the chosen row and every date are independent of how many lines block zero holds "
-              "(C04_single_notation_blocksize_independent); for mixed notations they are not (C04_mixed_notation_full_false = known finding F30); tied by component `patsel`.")
+              "(C04_single_notation_blocksize_independent); for mixed notations they are not (C04_mixed_notation_full_false = known finding F30); tied by component `patsel`. LineReader::find_line itself is regenerated from linereader.rs as a program (gen_lines.py -> Gen/Lines) whose interpreter is proved EQUAL to the hand models "
+              "(LineSkelSpec: C12_findLine_skeleton_is_model, C12_findLineCached_skeleton_is_model for every store), so findLine_spec / block-size independence hold of the regenerated form; ten one-edit mutants regenerated from edited source text each falsify a named statement; "
+              "component `lskel` compares real = hand = interpreter.")
 ASSUME = ["LineReader caches (lines, foend_to_fobeg, LRU) are transparent: validated by random call histories with drops against the cache-free model, not proved",
           "block-zero acceptance gate is outside the theorems of this file (bs-dependent; see known findings F1, F2)"]
 
@@ -24,7 +26,7 @@ def oracle(ctx):
 
 
 def check(ctx):
-    return core.standard_check(ctx, ['Blocks', 'Consts', 'Filter', 'DtStart', 'Print', 'PatSel', 'Keys', 'Stream', 'Fixed', 'LayoutDetect', 'FixedWalk'], MODS, [('patsel', 500, 6000), ('line', 2500, 40000), ('gate', 150, 2000), ('proc', 400, 6000), ('boxp', 300, 4000), ('prt', 600, 8000), ('fwalk', 1500, 15000)], oracle, LEVEL_NOTE, ASSUME)
+    return core.standard_check(ctx, ['Blocks', 'Consts', 'Filter', 'DtStart', 'Print', 'PatSel', 'Keys', 'Stream', 'Fixed', 'LayoutDetect', 'FixedWalk', 'Lines', 'LinesMutants'], MODS, [('patsel', 500, 6000), ('line', 2500, 40000), ('lskel', 3000, 20000), ('gate', 150, 2000), ('proc', 400, 6000), ('boxp', 300, 4000), ('prt', 600, 8000), ('fwalk', 1500, 15000)], oracle, LEVEL_NOTE, ASSUME)
 
 
 def replay(ctx, data):
